@@ -224,3 +224,15 @@ Theorem C05_completed_syllable_goes_in_at_the_cursor : forall D SY (dops : dict_
    dict s' = dict s /\ opts s' = opts s /\ commit_buf s' = commit_buf s).
 Proof. intros D SY dops sops s s' ev t sy. exact (syllable_commit_key dops sops s ev s' t sy). Qed.
 Print Assumptions C05_completed_syllable_goes_in_at_the_cursor.
+
+(* through the C API: a key-entry call (any chewing_handle_* function, Default / CtrlNum / Numlock with any int) that is
+   answered with chewing_keystroke_CheckAbsorb = 1 and leaves the editor in the editing state leaves the buffer within
+   the configured limit (chewing_get_maxChiSymbolLen / chewing.auto_commit_threshold) *)
+From LC Require Import Proofs.CapiEnter.
+Theorem C05_absorbed_key_call_leaves_the_buffer_within_the_limit : forall conv (c : cctx) o c',
+  key_call o -> cstep conv c o = Ok c' ->
+  c' = c \/
+  (chewing_keystroke_CheckAbsorb c' = 1%Z -> st (cx_ed c') = Entering ->
+   (chewing_buffer_Len c' <= Z.of_nat (o_threshold (opts (sh (cx_ed c')))))%Z).
+Proof. exact c_absorbed_key_call_is_bounded. Qed.
+Print Assumptions C05_absorbed_key_call_leaves_the_buffer_within_the_limit.
